@@ -83,7 +83,10 @@ type hostKey struct {
 	pub    crypto.PublicKey
 }
 
-var hkAlgos = []string{"ssh-ed25519", "ecdsa-sha2-nistp256", "ecdsa-sha2-nistp384", "ecdsa-sha2-nistp521", "rsa-sha2-256", "rsa-sha2-512", "ssh-rsa"}
+var hkAlgos = []string{"ssh-ed25519", "ecdsa-sha2-nistp256", "ecdsa-sha2-nistp384", "ecdsa-sha2-nistp521", "rsa-sha2-256", "rsa-sha2-512", "ssh-rsa",
+	// host certificates: the key blob K_S is the certificate, the signature format is the underlying algorithm
+	"ssh-ed25519-cert-v01@openssh.com", "ecdsa-sha2-nistp256-cert-v01@openssh.com",
+	"rsa-sha2-256-cert-v01@openssh.com", "rsa-sha2-512-cert-v01@openssh.com", "ssh-rsa-cert-v01@openssh.com"}
 
 var (
 	hkOnce sync.Once
@@ -91,6 +94,14 @@ var (
 )
 
 func keyFormat(algo string) string {
+	switch algo {
+	case "ssh-ed25519-cert-v01@openssh.com":
+		return "cert:ssh-ed25519"
+	case "ecdsa-sha2-nistp256-cert-v01@openssh.com":
+		return "cert:ecdsa-sha2-nistp256"
+	case "rsa-sha2-256-cert-v01@openssh.com", "rsa-sha2-512-cert-v01@openssh.com", "ssh-rsa-cert-v01@openssh.com":
+		return "cert:ssh-rsa"
+	}
 	if strings.HasPrefix(algo, "rsa-sha2-") {
 		return "ssh-rsa"
 	}
@@ -119,6 +130,21 @@ func hostKeys() *[2]map[string]*hostKey {
 				panic(err)
 			}
 			add("ssh-rsa", rk)
+			// host certificates over three of the keys, signed by a throw-away CA
+			_, caPriv, _ := ed25519.GenerateKey(rand.Reader)
+			ca, _ := ssh.NewSignerFromKey(caPriv)
+			for _, base := range []string{"ssh-ed25519", "ecdsa-sha2-nistp256", "ssh-rsa"} {
+				cert := &ssh.Certificate{Key: m[base].signer.PublicKey(), CertType: ssh.HostCert, KeyId: "verif", ValidPrincipals: []string{"verif"},
+					ValidAfter: 0, ValidBefore: ssh.CertTimeInfinity, Serial: uint64(i + 1)}
+				if err := cert.SignCert(rand.Reader, ca); err != nil {
+					panic(err)
+				}
+				cs, err := ssh.NewCertSigner(cert, m[base].signer)
+				if err != nil {
+					panic(err)
+				}
+				m["cert:"+base] = &hostKey{signer: cs, pub: m[base].pub}
+			}
 			hkSets[i] = m
 		}
 	})
@@ -921,6 +947,14 @@ func execKex(o hx.Op) string {
 					valgo = "ssh-rsa"
 				case "ssh-rsa":
 					valgo = "rsa-sha2-256"
+				case "rsa-sha2-256-cert-v01@openssh.com":
+					valgo = "rsa-sha2-512-cert-v01@openssh.com"
+				case "rsa-sha2-512-cert-v01@openssh.com":
+					valgo = "ssh-rsa-cert-v01@openssh.com"
+				case "ssh-rsa-cert-v01@openssh.com":
+					valgo = "rsa-sha2-256"
+				case "ssh-ed25519-cert-v01@openssh.com": // a certificate algorithm of another key family
+					valgo = "ecdsa-sha2-nistp256-cert-v01@openssh.com"
 				default:
 					rr := rd{sig, true}
 					rr.str()
